@@ -164,6 +164,10 @@ int main(int argc, char** argv) {
         if (mine()) { orgs<gil::png_tag, gil::gray8_image_t, gil::gray8_image_t>("png", "gray8", w, h, rng, gi, false, true, "", false);
                       orgs<gil::png_tag, gil::rgb8_image_t, gil::rgb8_planar_image_t>("png", "rgb8", w, h, rng, gi, false, true, "", true);
                       orgs<gil::png_tag, gil::rgba8_image_t, gil::rgba8_planar_image_t>("png", "rgba8", w, h, rng, gi, false, true, "", true); }
+        if (mine()) { gil::image_write_info<gil::png_tag> gii; gii._interlace_method = PNG_INTERLACE_ADAM7;         // write option: Adam7 interlacing
+                      orgs<gil::png_tag, gil::rgb8_image_t, gil::rgb8_planar_image_t>("png", "rgb8", w, h, rng, gii, true, true, "interlaced/", true);
+                      orgs<gil::png_tag, gil::gray16_image_t, gil::gray16_image_t>("png", "gray16", w, h, rng, gii, true, true, "interlaced/", false);
+                      /* (sub-byte images: the writer refuses interlacing with an exception) */ }
         if (mine()) { orgs<gil::png_tag, gil::gray16_image_t, gil::gray16_image_t>("png", "gray16", w, h, rng, gi, false, true, "", false);
                       orgs<gil::png_tag, gil::rgb16_image_t, gil::rgb16_planar_image_t>("png", "rgb16", w, h, rng, gi, false, true, "", true);
                       bits<gil::png_tag, gray1_img>("png", "gray1", w, h, rng, gi, false, ""); bits<gil::png_tag, gray2_img>("png", "gray2", w, h, rng, gi, false, ""); bits<gil::png_tag, gray4_img>("png", "gray4", w, h, rng, gi, false, ""); }
